@@ -162,16 +162,114 @@ fn sampled(cfg: &RunCfg) -> Outcome {
     run_cell(cfg, s, m, l, gen::ratio(1, 2), gen::ratio(1, 3), gen::ratio(1, 3), gen::ratio(5, 6))
 }
 
+/// Several uploads to ONE path on one keep-alive connection, each with its own length and
+/// its own handler limit: a decision must never be carried over from an earlier request.
+fn same_path_sequence(cfg: &RunCfg) -> Outcome {
+    let dir = RunDir::new("c09q");
+    let s = gen::pick(&[0usize, 1, 100, 5000]);
+    let scfg = ServerCfg { max_conns: 1, small_body_len: s, cache_dir: Some(dir.path.clone()), with_permit: false };
+    with(|w| {
+        w.net.knobs.sock_cap = *w.tape.pick(&[262_144usize, 4096]);
+        w.net.knobs.short_io = w.tape.ratio(1, 2);
+        w.fs.short_io = w.tape.ratio(1, 3);
+    });
+    let mut eng = match Engine::start(scfg.clone()) {
+        Ok(e) => e,
+        Err(e) => return Outcome { harness_error: Some(e), ..Default::default() },
+    };
+    eng.step_cap = 3_000_000;
+    let n = 2 + gen::below(3) as usize;
+    let base_m = u64::from(gen::below(20_000)) + s as u64;
+    let mut reqs = Vec::new();
+    let mut cells = Vec::new();
+    for i in 0..n {
+        // limits and lengths around each other: later requests are often within an earlier
+        // request's limit but over their own
+        let m = match gen::below(4) {
+            0 => base_m,
+            1 => base_m / 2,
+            2 => u64::from(gen::below(300)),
+            _ => base_m * 2,
+        };
+        let l = match gen::below(5) {
+            0 => gen::below(s as u32 + 2) as u64,
+            1 => m,
+            2 => m + 1,
+            3 => base_m,
+            _ => base_m / 2 + 1,
+        }
+        .min(CLAMP);
+        let key = format!("plan{i}");
+        let plan = Plan {
+            on_pending: if gen::ratio(1, 4) { OnPending::RecvBody(m) } else { OnPending::GetBody(m) },
+            on_ready: OnReady::Respond,
+            resp: RespSpec { code: 200, body_len: 3, body_seed: i as u32, ctype: 1, headers: vec![] },
+        };
+        handler::set_plan(&key, plan.clone());
+        reqs.push(Req {
+            path: "/up".into(),
+            method: gen::pick(&["POST", "PUT"]).to_string(),
+            kind: ReqKind::Known(l as usize),
+            expect: false,
+            wait100: false,
+            body_seed: gen::seed32(),
+            plan,
+            extra_headers: vec![("x-plan".into(), key)],
+            raw_head: None,
+            raw_body: None,
+            meta: None,
+        });
+        cells.push(format!("#{i}: L={l} M={m}"));
+    }
+    let mut cl = client_for(&reqs, gen::ratio(1, 2), gen::pick(&[Frag::Whole, Frag::Random]));
+    cl.slow_read = gen::ratio(1, 4);
+    eng.add_client(cl);
+    eng.run(&mut NoExtras);
+    let cell = format!("S={s} same path /up, requests {cells:?}");
+    if eng.hit_cap {
+        return Outcome::fail("C09.terminates", format!("{cell}: never quiesces"));
+    }
+    if let Some(p) = eng.sut_panics().first() {
+        return Outcome::fail("C09.no_task_panic", format!("{cell}: {p}"));
+    }
+    let cl = &eng.clients[0];
+    let conn = match cl.conn {
+        Some(c) => c,
+        None => return Outcome { harness_error: Some("client never connected".into()), ..Default::default() },
+    };
+    let exp = model_conn(&reqs, &scfg);
+    let calls = handler::calls();
+    let at_eof = with(|w| w.client_at_eof(conn));
+    if let Some(mut v) = check_conn("C09", &cell, &exp, &calls, &cl.received, at_eof) {
+        if v.clause == "C09.response_content" || v.clause == "C09.handler_runs" || v.clause == "C09.response_count" {
+            v.clause = "C09.decision_table".into();
+        }
+        return Outcome { violation: Some(v), nontrivial: true, ..Default::default() };
+    }
+    for c in &calls {
+        if let Some(b) = &c.body {
+            if matches!(c.body_kind, "vec" | "static-str" | "static-bytes") && b.len() > s {
+                return Outcome::fail("C09.memory_bound", format!("{cell}: a body of {} bytes was handed over in memory, small_body_len={s}", b.len()));
+            }
+        }
+    }
+    if calls.iter().filter(|c| !c.pending).count() >= 2 {
+        gen::count("probe.two_uploads_same_path_handled");
+    }
+    Outcome { nontrivial: true, case_hash: sim_core::tape::fnv1a(cell.as_bytes()), sample: if cfg.index < 1 { Some(json!({"cell": cell})) } else { None }, ..Default::default() }
+}
+
 pub fn spec() -> PropertySpec {
     PropertySpec {
         id: "C09",
         level: "exploration",
-        rule: "One upload per run against the real server in simulation. Enumerated stage: the full cross product S in {0,1,100,65536} x M in {0,1,S-1,S,S+1,70000,2^63,2^64-1} x L in {0,1,S-1,S,S+1,M-1,M,M+1,M+2} (clamped to 200 KiB) x {declared, undeclared} x {Expect, none} x {GetBodyAndReprocess(M), Request::recv_body(M)} x {cache dir, none} = 4608 cells, each run several times under different fragmentation / short-I/O / scheduling draws; sampled stage: S, M drawn freely, L within +-2 of 0, S, M. Clients that send Expect wait for the interim response (a lost 100 is a quiescence-detected deadlock). Oracle: reference decision table (in-memory hand-over iff declared L <= S, ask first otherwise, accept iff L <= M with byte-for-byte equal body, 413 without a second handler run iff L > M), resource invariants from the simulated file layer (bytes written to a cache file <= M+1, nothing written for a declared L > M, no in-memory body above S). distinct = the cell; runs/cell vary the schedule.",
+        rule: "One upload per run against the real server in simulation. Enumerated stage: the full cross product S in {0,1,100,65536} x M in {0,1,S-1,S,S+1,70000,2^63,2^64-1} x L in {0,1,S-1,S,S+1,M-1,M,M+1,M+2} (clamped to 200 KiB) x {declared, undeclared} x {Expect, none} x {GetBodyAndReprocess(M), Request::recv_body(M)} x {cache dir, none} = 4608 cells, each run several times under different fragmentation / short-I/O / scheduling draws; sampled stage: S, M drawn freely, L within +-2 of 0, S, M; sequence stage: 2-4 declared-length uploads to ONE path on one keep-alive connection, each with its own L and its own handler limit M (no decision may be carried over from an earlier request). Clients that send Expect wait for the interim response (a lost 100 is a quiescence-detected deadlock). Oracle: reference decision table (in-memory hand-over iff declared L <= S, ask first otherwise, accept iff L <= M with byte-for-byte equal body, 413 without a second handler run iff L > M), resource invariants from the simulated file layer (bytes written to a cache file <= M+1, nothing written for a declared L > M, no in-memory body above S). distinct = the cell; runs/cell vary the schedule.",
         scenarios: vec![
             Scenario { name: "c09.cross_product", property: "C09", func: cross_product, runs_quick: 4608 * 12, runs_thorough: 4608 * 400, doc: "full cross product" },
             Scenario { name: "c09.sampled", property: "C09", func: sampled, runs_quick: 150_000, runs_thorough: 4_000_000, doc: "free S, M; L near the boundaries" },
+            Scenario { name: "c09.same_path_sequence", property: "C09", func: same_path_sequence, runs_quick: 60_000, runs_thorough: 1_500_000, doc: "2-4 uploads to one path on one connection, each with its own limit" },
         ],
-        required_probes: vec!["probe.undeclared_over_limit", "probe.declared_exactly_at_limit", "probe.limit_u64_max_undeclared"],
+        required_probes: vec!["probe.undeclared_over_limit", "probe.declared_exactly_at_limit", "probe.limit_u64_max_undeclared", "probe.two_uploads_same_path_handled"],
         components: components_server(),
         assumptions: vec![
             "'holds in memory' is observed as the kind and size of the body object handed to the handler",
